@@ -133,6 +133,10 @@ let sB : imap ref = ref Inst.t_empty
 let mT : smap ref = ref Inst.t_empty
 let sT : smap ref = ref Inst.t_empty
 
+(* arena-level model of map A (Arena.v), kept in step with the tree model as long as only
+   operations it transcribes (insert / remove / remove_keep_tree) touch A; None = out of step *)
+let aA : (pfx, int) Arena.amap option ref = ref (Some InstArena.t_a_empty)
+
 let mapref = function "A" -> mA | "B" -> mB | s -> failwith ("map " ^ s)
 let saveref = function "A" -> sA | "B" -> sB | s -> failwith ("map " ^ s)
 
@@ -334,26 +338,86 @@ let idv = function None -> "-" | Some (_, x) -> string_of_int x
 
 let two_maps xy = (mapref (String.make 1 xy.[0]), mapref (String.make 1 xy.[1]))
 
+
+(* run the arena-level operation next to the tree-level one; by ArenaThm.{insert,remove,
+   remove_keep_tree}_sim the outputs agree and no Panic/OutOfFuel occurs: a disagreement aborts *)
+let arena_step (f : (pfx, int) Arena.amap -> ((pfx, int) Arena.amap * int option) Arena.res) (o_tree : int option) =
+  match !aA with
+  | None -> ()
+  | Some am ->
+    (match f am with
+     | Arena.Ok (am', o) ->
+       if o <> o_tree then failwith "arena model and tree model disagree on an output";
+       aA := Some am'
+     | _ -> failwith "arena model panicked or ran out of fuel")
+
+
+let arena_apply (f : (pfx, int) Arena.amap -> (pfx, int) Arena.amap Arena.res) =
+  match !aA with
+  | None -> ()
+  | Some am ->
+    (match f am with
+     | Arena.Ok am' -> aA := Some am'
+     | _ -> failwith "arena model panicked or ran out of fuel")
+
+let arenax_line () =
+  match !aA with
+  | None -> add "unsynced"
+  | Some am ->
+    let optn = function None -> "-" | Some i -> string_of_int (int_of_n i) in
+    add ("alen=" ^ string_of_int (Stdlib.List.length am.Arena.tbl)
+         ^ " count=" ^ Printf.sprintf "%Lu" (Int64.of_int (int_of_z am.Arena.acount))
+         ^ " free=" ^ plist (fun i -> string_of_int (int_of_n i)) (Stdlib.List.rev am.Arena.afree)
+         ^ " slots=" ^ plist (fun n -> optn n.Arena.nleft ^ ":" ^ optn n.Arena.nright ^ ":"
+                                         ^ (match n.Arena.nval with Some _ -> "1" | None -> "0")) am.Arena.tbl)
+
+let keeps_arena_sync = ["ins"; "rem"; "remk"; "clear"; "remc"; "retain"; "getmut"; "viewmut";
+                        "obs"; "q"; "shape"; "arena"; "arenax"; "iters"; "view"; "alg";
+                        "sins"; "srem"; "sremk"; "sremc"; "sclear"; "ssave"; "sretain"; "seq"; "sobs"; "sq"; "save"; "eq"]
 let exec (toks : string list) =
+  (match toks with
+   | op :: x :: _ when not (Stdlib.List.mem op keeps_arena_sync) && (x = "A" || (String.length x = 2 && String.contains x 'A')) -> aA := None
+   | _ -> ());
   match toks with
   | ["ins"; x; p; v] ->
     let m = mapref x in
     let (m', o) = Inst.t_insert !w !fl !m (parse_pfx p) (int_of_string v) in
+    if x = "A" then arena_step (fun am -> InstArena.t_a_insert !w !fl am (parse_pfx p) (int_of_string v)) o;
     m := m'; add (popt o)
   | ["rem"; x; p] ->
     let m = mapref x in
-    let (m', o) = Inst.t_remove !w !fl !m (parse_pfx p) in m := m'; add (popt o)
+    let (m', o) = Inst.t_remove !w !fl !m (parse_pfx p) in
+    if x = "A" then arena_step (fun am -> InstArena.t_a_remove !w !fl am (parse_pfx p)) o;
+    m := m'; add (popt o)
   | ["remk"; x; p] ->
     let m = mapref x in
-    let (m', o) = Inst.t_remove_keep_tree !w !fl !m (parse_pfx p) in m := m'; add (popt o)
+    let (m', o) = Inst.t_remove_keep_tree !w !fl !m (parse_pfx p) in
+    if x = "A" then arena_step (fun am -> InstArena.t_a_remove_keep_tree !w !fl am (parse_pfx p)) o;
+    m := m'; add (popt o)
   | ["remc"; x; p] ->
     let m = mapref x in
+    if x = "A" then arena_apply (fun am -> InstArena.t_a_remove_children !w !fl am (parse_pfx p));
     m := Inst.t_remove_children !w !fl !m (parse_pfx p); add "ok"
   | ["retain"; x; pred; k] ->
     let m = mapref x in
     let k = if k = "-" then None else Some (int_of_string k) in
+    (if x = "A" then
+       let pr = parse_pred pred in
+       let f n p v = (match k with Some k when int_of_nat n = k -> None | _ -> Some (pr p v)) in
+       let ((_, pan_t), calls_t) = Inst.t_retain f !mA in
+       match !aA with
+       | None -> ()
+       | Some am ->
+         (match InstArena.t_a_retain f am with
+          | Arena.Ok ((am', pan_a), calls_a) ->
+            if pan_a <> pan_t || calls_a <> calls_t then failwith "arena retain and tree retain disagree";
+            aA := Some am'
+          | _ -> failwith "arena model panicked or ran out of fuel"));
     do_retain m (parse_pred pred) k cmp_call ppair
-  | ["clear"; x] -> let m = mapref x in m := Inst.t_clear !m; add "ok"
+  | ["clear"; x] ->
+    if x = "A" then arena_apply (fun am -> Arena.Ok (InstArena.t_a_clear am));
+    let m = mapref x in m := Inst.t_clear !m; add "ok"
+  | ["arenax"; x] -> if x = "A" then arenax_line () else add "?"
   | ["alias"; x] -> if x = "A" then do_alias mA else add "?"
   | ["par"; x; k] -> if x = "A" then do_par mA (min 6 (int_of_string k)) else add "?"
   | ["collect"; x; rs] ->
@@ -374,6 +438,7 @@ let exec (toks : string list) =
     (match Inst.t_get !w !fl (root !m) q with
      | None -> add "-"
      | Some old -> let nv = apply_fn f 0 old in
+       if x = "A" then arena_apply (fun am -> InstArena.t_a_get_mut !w !fl am q (fun _ -> nv));
        m := Inst.t_update_value !w !fl !m q (fun _ -> nv); add (string_of_int old))
   | ["lpmmut"; x; p; f] ->
     let m = mapref x in
@@ -429,11 +494,18 @@ let exec (toks : string list) =
          addsp ("iter=" ^ plist ppair (drop3 (Views.v_iter (Views.vm_view t v))))
        else if starts act "set:" then begin
          let x = int_of_string (after act "set:") in
+         (match v.Views.mvirt, Views.vm_tree t v with
+          | None, Trie.Node (i, _, _, _, _) when m == mA ->
+            arena_step (fun am -> InstArena.t_a_vm_set am i x) (match Views.vm_tree t v with Trie.Node (_, _, o, _, _) -> o | _ -> None)
+          | _ -> ());
          let (t', r) = Views.vm_set t v x in
          m := set_root !m t';
          (match r with Coq_inl old -> addsp ("ok:" ^ popt old) | Coq_inr x -> addsp ("err:" ^ string_of_int x))
        end
        else if act = "remove" then begin
+         (match v.Views.mvirt, Views.vm_tree t v with
+          | None, Trie.Node (i, _, o, _, _) when m == mA -> arena_step (fun am -> InstArena.t_a_vm_remove am i) o
+          | _ -> ());
          let (t', r) = Views.vm_remove t v in m := set_root !m t'; addsp (popt r)
        end
        else if starts act "vmut:" || starts act "pvmut:" then begin
@@ -444,11 +516,17 @@ let exec (toks : string list) =
           | None -> addsp "-"
           | Some (p, old) ->
             let nv = apply_fn f 0 old in
+            (match v.Views.mvirt, Views.vm_tree t v with
+             | None, Trie.Node (i, _, _, _, _) when m == mA ->
+               arena_apply (fun am -> match InstArena.t_a_vm_value_mut am i (fun _ -> nv) with
+                   | Arena.Ok (am', _) -> Arena.Ok am' | Arena.Panic -> Arena.Panic | Arena.OutOfFuel -> Arena.OutOfFuel)
+             | _ -> ());
             let (t', _) = Views.vm_value_mut t v (fun _ -> nv) in
             m := set_root !m t';
             addsp (if isp then ppair (p, old) else string_of_int old))
        end
        else if starts act "itermut:" || starts act "intoiter:" || starts act "valsmut:" then begin
+         if m == mA then aA := None;
          let pre = if starts act "itermut:" then "itermut:" else if starts act "intoiter:" then "intoiter:" else "valsmut:" in
          let f = parse_fn (after act pre) in
          let items = Views.vm_iter_mut t v in
@@ -692,7 +770,7 @@ let () =
          | ["S"; id; ty] ->
            let (wi, f) = type_info ty in
            w := n_of_int wi; fl := f; tyname := ty;
-           mA := Inst.t_empty; mB := Inst.t_empty; sA := Inst.t_empty; sB := Inst.t_empty;
+           aA := Some InstArena.t_a_empty; mA := Inst.t_empty; mB := Inst.t_empty; sA := Inst.t_empty; sB := Inst.t_empty;
            mT := Inst.t_empty; sT := Inst.t_empty;
            output_string oc ("S " ^ id ^ "\n")
          | _ ->
